@@ -236,7 +236,7 @@ class RangeTree:
             for build_point in build_points
         ]).T
 
-        if self.shuffler is None:
+        if self.shuffler is None or not pairs.size:
             return pairs
         else:
 
